@@ -28,10 +28,10 @@ J = pb.PEL(pb.SRC(ascii=b"BD8D3333", flags=1, callouts=_co()), pb.UD(b"\x01\x02\
 
 MODES = ["l", "a", "n", "plid", "src", "j", "ahex", "lrev", "bmc", "nE", "plidhex"]
 KINDS = ["empty", "rand12", "trunc:60-76", "trunc:200-216", "trunc:296-305", "corrupt:0-4", "corrupt:48-52", "corrupt:72-76",
-         "corrupt:83-84", "corrupt:212-214", "corrupt:214-215", "corrupt:215-216", "corrupt:154-156", "corrupt:156-157", "corrupt:186-187", "subdir",
+         "corrupt:83-84", "corrupt:212-214", "corrupt:214-215", "corrupt:215-216", "corrupt:154-156", "corrupt:156-157", "corrupt:186-187", "subdir", "subdir-ext",
          "subdir-only", "trunc:48-72"]
 CASES = ["%s/%s" % (m, k) for m in MODES for k in KINDS] + ["a/empty:pct", "l/rand12:pct", "l/empty:pct", "j/empty:pct", "l/corrupt:186-187:v3", "a/corrupt:186-187:v3", "a/corrupt:214-215:v40", "l/corrupt:214-215:v40"]
-QUICK = ["n/empty", "n/rand12", "l/corrupt:186-187", "l/corrupt:186-187:v3", "a/empty:pct", "l/empty:pct", "a/corrupt:0-4", "nE/trunc:48-72", "plidhex/trunc:200-216", "l/subdir-only", "bmc/corrupt:0-4", "a/corrupt:214-215:v40", "l/corrupt:214-215:v40", "a/trunc:200-216", "n/corrupt:48-52", "j/corrupt:83-84", "plid/rand12",
+QUICK = ["a/subdir-ext", "l/subdir-ext", "n/empty", "n/rand12", "l/corrupt:186-187", "l/corrupt:186-187:v3", "a/empty:pct", "l/empty:pct", "a/corrupt:0-4", "nE/trunc:48-72", "plidhex/trunc:200-216", "l/subdir-only", "bmc/corrupt:0-4", "a/corrupt:214-215:v40", "l/corrupt:214-215:v40", "a/trunc:200-216", "n/corrupt:48-52", "j/corrupt:83-84", "plid/rand12",
          "src/empty", "ahex/corrupt:0-4", "a/subdir", "l/corrupt:83-84", "lrev/trunc:60-76"]
 HARNESSES = [{"fn": "h_isolate", "cases": CASES, "quick_cases": QUICK, "timeout": {"quick": 120, "thorough": 900}}]
 BOUNDS = {"directory": "two well-formed logs + one extra file whose sorted position (first / middle / last) is symbolic",
@@ -72,9 +72,9 @@ def _opts(mode):
     return o
 
 
-def _run(files, mode, subdirs=None):
+def _run(files, mode, subdirs=None, ext=None):
     w = World(files=files, subdirs=subdirs, dirs=["/out"])
-    ns = Namespace(**dict(ARG_DEFAULTS, path="/pels", **_opts(mode)))
+    ns = Namespace(**dict(ARG_DEFAULTS, path="/pels", **dict(_opts(mode), extension=ext)))
     st = run_main(peltool, w, ns, diag_modules=(srcmod, comp_id))
     return w, st
 
@@ -187,6 +187,16 @@ def h_isolate() -> bool:
         for cand in range(a, b):
             if i == cand:
                 extra = mkbytes(J[:cand], [v], J[cand + 1:])
+    elif kind == "subdir-ext":
+        # --extension given, and a sub-directory whose name carries that extension: it is not a log file
+        gx = [("n_50000002.d", G2), ("a_50000001.d", G1)]
+        try:
+            w0, s0 = _run(gx, mode, ext=".d")
+            w1, s1 = _run(gx, mode, subdirs={"archive.d": [("x_50000009.d", J)], "empty.d": []}, ext=".d")
+        except Exception as e:
+            return verdict(False, obs={"exception": repr(e)})
+        return verdict(sym_all([s0 == 0, s1 == 0, _norm(w1) == _norm(w0), _well_framed(w1, mode)]),
+                       obs={"with": [str(o)[:60] for o in w1.stdout()], "status": [s0, s1]})
     elif kind == "subdir-only":
         # nothing but sub-directories in the PEL directory: the result is that of an empty directory
         try:
